@@ -140,9 +140,13 @@ class HeaderObject(BaseObject):
         # Render everything except padding
         num_objects = 0
         data = bytearray()
+        file_props_offset = None
         for obj in self.objects:
             if obj.GUID == PaddingObject.GUID:
                 continue
+            if obj.GUID == FilePropertiesObject.GUID and \
+                    file_props_offset is None:
+                file_props_offset = len(data)
             data += obj.render(asf)
             num_objects += 1
 
@@ -165,11 +169,16 @@ class HeaderObject(BaseObject):
         data += padding_obj.render(asf)
         num_objects += 1
 
-        data = (HeaderObject.GUID +
-                struct.pack("<QL", len(data) + 30, num_objects) +
-                b"\x01\x02" + data)
+        data = bytearray(HeaderObject.GUID +
+                         struct.pack("<QL", len(data) + 30, num_objects) +
+                         b"\x01\x02" + data)
 
-        return data
+        if file_props_offset is not None:
+            # the File Properties Object declares the size of the whole file
+            pos = 30 + file_props_offset + 24 + 16
+            data[pos:pos + 8] = struct.pack("<Q", len(data) + content_size)
+
+        return bytes(data)
 
     def parse(self, asf, data):
         raise NotImplementedError
